@@ -514,8 +514,10 @@ def r4_2(ctx):
             for d, vals, excl, s, tg in dominating_facts(b, ex, loc[0]):
                 truth = (vals is None and excl == [0]) or vals == [1]
                 d0 = strip_refs(d)
-                if truth and d0[0] == "bin" and d0[1] == "Eq" and d0[3] == ("const", 2) and any(x[0] == "call" and x[1].endswith("::abs") for x in subexprs(d0[2])):
-                    trig.append("two-rows")
+                if truth and d0[0] == "bin" and d0[1] == "Eq" and ("const", 2) in (d0[2], d0[3]):
+                    other = d0[2] if d0[3] == ("const", 2) else d0[3]
+                    if any(x[0] == "call" and (x[1].endswith("::abs") or x[1].endswith("::abs_diff")) for x in subexprs(other)):
+                        trig.append("two-rows")
             # the mover is a pawn on this trace: `kind == Pawn` or the Pawn arm of `match kind`
             kinds = f.enum_variant_by_discr("board::PieceKind")
             cands = set()
